@@ -112,7 +112,8 @@ def build_world(cfg):
                           points_to_evaluate=_p2e(cfg))
         s.set_time_keeper(env.ConstTimeKeeper())
         T, R = cfg["T"], cfg.get("R", 2)
-        spec = dict(W=cfg["W"], T=T, R=R, table=_table(cfg, T, R), brackets=0, fail_budget=cfg.get("F", 0))
+        spec = dict(W=cfg["W"], T=T, R=R, table=_table(cfg, T, R), brackets=0, fail_budget=cfg.get("F", 0),
+                    id0=cfg.get("id0", 0))
         return World(s, spec)
     if fam in ("hbgp", "hbgrid", "hbrand"):
         from syne_tune.optimizer.schedulers import HyperbandScheduler
@@ -137,7 +138,8 @@ def build_world(cfg):
         nb = cfg.get("brackets", 1)
         # rngb: brackets are sampled by the scheduler's own RNG (no one-hot seam) -> the bracket RNG must survive restore
         spec = dict(W=cfg["W"], T=T, R=R, table=_table(cfg, T, R), brackets=nb if (nb > 1 and not cfg.get("rngb")) else 0,
-                    max_resource_attr=mra, scratch=cfg.get("scratch", False), fail_budget=cfg.get("F", 0))
+                    max_resource_attr=mra, scratch=cfg.get("scratch", False), fail_budget=cfg.get("F", 0),
+                    id0=cfg.get("id0", 0))
         return World(s, spec)
     if fam == "misc":
         from . import scheds
@@ -241,17 +243,26 @@ def configs(tier, seed):
     add(fam="misc", kind="pbt", W=2, T=5, R=3, use_mra=False, ms=100 if q else 700, spines=3)
     add(fam="misc", kind="dehb", W=2, T=6, R=4, ms=100 if q else 700, spines=3)
     add(fam="misc", kind="median", W=2, T=5, R=3, ms=100 if q else 700, spines=2, F=1)
+    add(fam="misc", kind="rea", W=2, T=6, R=3, ms=60 if q else 500, spines=2)
+    add(fam="misc", kind="hb-rush-prom", W=2, T=5, R=4, ms=60 if q else 500, spines=2)
     if not q:
         add(fam="misc", kind="pbt", W=3, T=6, R=4, use_mra=False, kw={"population_size": 3}, ms=700, spines=3,
             perms={"1": (2, 0, 1, 3, 5, 4), "2": (1, 2, 0, 4, 3, 5)})
         add(fam="misc", kind="dehb", W=3, T=7, R=4, mode="max", ms=700, spines=3)
         add(fam="misc", kind="shb", W=2, T=6, R=4, ms=500, spines=2)
+        add(fam="misc", kind="hb-cost", W=2, T=5, R=4, ms=500, spines=2)
+        add(fam="misc", kind="hb-rush-stop", W=2, T=5, R=4, ms=500, spines=2)
     # --- a few real-BO states (tiny optimiser settings); crash points = prefixes of spine histories only
     add(fam="fifo", searcher="bayesopt", nir=2, W=2, T=6, R=1, p2e=1, ms=0, spines=2 if q else 3, h=2, bo=True,
         perms={"1": (2, 0, 3, 1, 4, 5)}, opt_warmstart=True)
+    # three workers and trial ids 8..13: two or three pending trials whose ids cross 9 -> 10 (string order != numeric order)
+    add(fam="fifo", searcher="bayesopt", nir=2, W=3, T=7, R=1, p2e=1, ms=0, spine_policies=["N", "S"], h=2, bo=True, id0=9,
+        perms={"1": (2, 0, 3, 1, 4, 5, 6)})
     if not q:
         add(fam="fifo", searcher="bayesopt", nir=2, W=2, T=6, R=1, p2e=0, ms=0, spines=2, h=2, bo=True,
             perms={"1": (2, 0, 3, 1, 4, 5)}, opt_skip_init_length=1, opt_skip_period=2)
+        add(fam="hbgp", searcher="bayesopt", nir=2, type="promotion", W=3, T=5, R=2, p2e=1, ms=0, spine_policies=["N", "S", "R"], h=2,
+            bo=True, id0=9, perms={"1": (1, 0, 3, 2, 4)})
     add(fam="hbgp", searcher="bayesopt", nir=2, type="stopping", W=2, T=5, R=2, p2e=1, ms=0, spines=2, h=2, bo=True,
         perms={"1": (1, 0, 3, 2, 4)})
     if not q:
